@@ -97,7 +97,8 @@ def bucket_allocator(F, R):
         R.missing('PoolAllocator::calc_number_of_buckets')
     else:
         t = sym_nstr(sym(cn[0], ['c', [0]]))
-        ok = re.search(r'\(\(cast(<\w+>)?\(ptr\) \+ size\) - math::align\(cast(<\w+>)?\(ptr\), Layout::align\(bucket_layout\)\)\) /', t) is not None
+        pl, pp, ps = (r'\$%d' % lib.param_index(cn[0], n_, i_) for n_, i_ in (('bucket_layout', 1), ('ptr', 2), ('size', 3)))
+        ok = re.search(r'\(\(cast(<\w+>)?\(%s\) \+ %s\) - math::align\(cast(<\w+>)?\(%s\), Layout::align\(%s\)\)\) /' % (pp, ps, pp, pl), lib.canon(cn[0], t)) is not None
         R.ob('SYM-EQ', 'SYM-EQ::%s::bucket-count-from-aligned-start' % PA, ok, 'number of buckets = `%s` ; required ((ptr + size) - align(ptr, bucket alignment)) / stride: the buckets start at the aligned address, counting from the unaligned one yields a bucket that ends behind the block' % t[:220], '%s:%s' % (cn[0].file, cn[0].line), cn[0])
         users = [c for c in F.callers_of(r'PoolAllocator::calc_number_of_buckets$') if c.fn.id.endswith('::new_uninit')]
         R.ob('FLOW', 'FLOW::%s::new_uninit-sizes-the-index-set-with-the-bucket-count' % PA, len(users) == 1 and any('calc_number_of_buckets' in sym_nstr(sym(nu, c.args[0])) for c in nu.calls(r'UniqueIndexSet( as .*)?>?::new_uninit$')), 'UniqueIndexSet::new_uninit(calc_number_of_buckets(..)) in new_uninit', users[0].where if users else nu.file, nu)
